@@ -23,7 +23,12 @@
 (***************************************************************************)
 EXTENDS Match, Integers, TLC
 
-CONSTANTS Clients, KeyPerms
+CONSTANTS Clients, KeyPerms, Surveyed,
+          Home       \* [Clients -> broker name]: the broker a client connects to.  With one broker this is the plain
+                     \* single-broker specification; with several, the brokers are joined by gossip (Gossip.tla) and every
+                     \* step of this module is taken at gossip QUIESCENCE: the cluster then behaves like one broker,
+                     \* except for what is kept per broker (the message store, and - while no peer connection is
+                     \* established at the mesh level - the presence survey)
 
 VARIABLES conn,    \* [Clients -> {"new", "open", "closed"}]
           user,    \* [Clients -> STRING]      username given at CONNECT
@@ -31,7 +36,7 @@ VARIABLES conn,    \* [Clients -> {"new", "open", "closed"}]
           held,    \* [Clients -> set of ssids]   the connection's counters
           trie,    \* set of <<ssid, client>>
           links,   \* [Clients -> set of link records]   (name unique per client)
-          store,   \* sequence of stored messages [w, p]
+          store,   \* [Brokers -> sequence of stored messages [w, p]]   (every broker has its own message store)
           out      \* observation of the last step
 svars == <<conn, user, will, held, trie, links, store>>
 allvars == <<svars, out>>
@@ -40,6 +45,10 @@ allvars == <<svars, out>>
 StdKeyPerms == [kAll |-> {"r", "w", "s", "l", "p"}, kRO |-> {"r", "l", "p"}, kWO |-> {"w", "s"},
                 kNoSL |-> {"r", "w", "p"}, kExt |-> {"r", "w", "e"}]
 
+Brokers == { Home[c] : c \in Clients }
+(* the placements used by the configurations: nb = 1: one broker; 2: c2 alone on b2 (c1 and c3 share b1: two local
+   holders of one filter behind one route); 3: one client per broker *)
+StdHome(nb) == [c \in Clients |-> IF nb = 1 THEN "b1" ELSE IF c = "c2" THEN "b2" ELSE IF nb = 3 /\ c = "c3" THEN "b3" ELSE "b1"]
 CT == "ct"                                   \* the broker's contract
 Ssid(w)  == <<CT>> \o w
 Pres(s)  == <<"sys", "presence">> \o s       \* NewSsidForPresence
@@ -70,7 +79,7 @@ SessionInit ==
     /\ held  = [c \in Clients |-> {}]
     /\ trie  = {}
     /\ links = [c \in Clients |-> {}]
-    /\ store = <<>>
+    /\ store = [b \in Brokers |-> <<>>]
     /\ out   = Quiet
 
 ---------------------------------------------------------------------------
@@ -87,9 +96,9 @@ LastN(seq, ssid, n) ==      \* the n newest elements of seq matching ssid, as a 
          ELSE LastN(SubSeq(seq, 1, Len(seq) - 1), ssid, n)
 
 (* last: -1 = option absent (default 1).  win: every stored message is "now". *)
-History(ssid, last, win) ==
+History(b, ssid, last, win) ==
     LET limit == IF last < 0 THEN 1 ELSE last
-    IN  IF win \in {"fromFuture", "untilPast"} THEN {} ELSE LastN(store, ssid, limit)
+    IN  IF win \in {"fromFuture", "untilPast"} THEN {} ELSE LastN(store[b], ssid, limit)
 
 ---------------------------------------------------------------------------
 (* shared pieces of the handlers *)
@@ -134,7 +143,7 @@ Subscribe(c, k, w, syn, last, win) ==
             /\ UNCHANGED svars
        ELSE LET ssid == Ssid(w)
                 r    == DoSubscribe(c, ssid, w, [held |-> held, trie |-> trie])
-                rep  == IF Perm(k, "l") THEN History(ssid, last, win) ELSE {}
+                rep  == IF Perm(k, "l") THEN History(Home[c], ssid, last, win) ELSE {}
             IN  /\ held' = r.held /\ trie' = r.trie
                 /\ out'  = [x \in Clients |->
                               [s |-> IF x = c THEN (IF rep = {} THEN <<>> ELSE <<PReplay(rep)>>) \o <<PSuback(0)>> ELSE <<>>,
@@ -174,7 +183,7 @@ Publish(c, req, via, retain, qos, p) ==
             /\ UNCHANGED svars
        ELSE LET stored == (retain \/ r.ttl > 0) /\ Perm(r.k, "s")
                 rcv    == Direct(trie, Ssid(r.w), IF r.me0 THEN {c} ELSE {})
-            IN  /\ store' = IF stored THEN Append(store, [w |-> r.w, p |-> p]) ELSE store
+            IN  /\ store' = IF stored THEN [store EXCEPT ![Home[c]] = Append(@, [w |-> r.w, p |-> p])] ELSE store
                 /\ out'   = [x \in Clients |->
                                [s |-> (IF x \in rcv THEN <<PPub(r.w, p)>> ELSE <<>>) \o (IF x = c THEN ack ELSE <<>>),
                                 a |-> {}]]
@@ -212,7 +221,10 @@ Presence(c, k, w, syn, status, chg, qos) ==
                 r    == CASE chg = "on"  -> DoSubscribe(c, Pres(ssid), w, st0)
                           [] chg = "off" -> DoUnsubscribe(c, Pres(ssid), st0)
                           [] OTHER       -> [held |-> held, trie |-> trie, note |-> {}]
-                who  == { <<x, user[x]>> : x \in Direct(r.trie, ssid, {}) }
+                \* the status lists the local connections plus what the peers answer to a survey; the survey waits for
+                \* as many answers as the mesh router reports established connections (Surveyed: the harness' brokers
+                \* have none unless it installs a peer count, see Cluster stage of C05)
+                who  == { <<x, user[x]>> : x \in { y \in Direct(r.trie, ssid, {}) : Surveyed \/ Home[y] = Home[c] } }
             IN  /\ held' = r.held /\ trie' = r.trie
                 /\ out'  = [Quiet EXCEPT ![c].s = <<IF status THEN PStatus(w, who) ELSE PResp("presence", 200)>> \o ack]
                 /\ UNCHANGED <<conn, user, will, links, store>>
@@ -238,7 +250,7 @@ End(c) ==
            rcv == IF f THEN Direct(r.trie, Ssid(wl.w), {}) ELSE {}
        IN  /\ conn'  = [conn EXCEPT ![c] = "closed"]
            /\ held'  = r.held /\ trie' = r.trie
-           /\ store' = IF f /\ wl.retain /\ Perm(wl.k, "s") THEN Append(store, [w |-> wl.w, p |-> wl.p]) ELSE store
+           /\ store' = IF f /\ wl.retain /\ Perm(wl.k, "s") THEN [store EXCEPT ![Home[c]] = Append(@, [w |-> wl.w, p |-> wl.p])] ELSE store
            /\ out'   = [x \in Clients |->
                           IF x = c THEN [s |-> <<>>, a |-> {}]       \* whatever is written to the dying socket is not observable
                           ELSE [s |-> IF x \in rcv THEN <<PPub(wl.w, wl.p)>> ELSE <<>>,
